@@ -1033,6 +1033,56 @@ def _newton_start(model: Model, rep):
         raise AnalysisError(f"only {nchk} reference domains checked")
 
 
+def _dg_facet_map(model, rep):
+    """The facet map of the isoparametric mapping (bndmap / bndJ) reads the
+    facet nodes as doflocs[:, mesh.facets]: vertex numbers as column numbers
+    of the point array.  For the discontinuous (periodic) mesh classes the
+    point array has one column per cell corner (skv/dgspace.py), so the map
+    is garbage for any of them that *has* a boundary element; the others
+    refuse (bndelem is None).  No element of a MeshDG class may appear as a
+    key of BOUNDARY_ELEMENT_MAP while bndmap indexes by vertex numbers."""
+    R3 = "C10-R3"
+    bm = model.func(ISO, "MappingIsoparametric.bndmap")
+    by_vertex = any(
+        isinstance(n, ast.Subscript) and "facets" in src(n.slice)
+        and src(n.value) in ("p", "self.mesh.doflocs", "self.mesh.p")
+        for n in ast.walk(bm.node))
+    if not by_vertex:
+        raise AnalysisError("MappingIsoparametric.bndmap: facet nodes are "
+                            "not read as doflocs[:, facets] any more: model "
+                            "out of date")
+    em = model.module("skfem.element")
+    tab = em.assigns.get("BOUNDARY_ELEMENT_MAP")
+    if not isinstance(tab, ast.Dict):
+        raise AnalysisError("BOUNDARY_ELEMENT_MAP not found")
+    keys = {src(k) for k in tab.keys}
+    n = 0
+    for c in model.all_classes():
+        if not c.path.startswith("skfem/mesh/") or c.name == "MeshDG" or \
+                not any(b.name == "MeshDG" for b in c.mro()):
+            continue
+        n += 1
+        ea = c.find_attr("elem")
+        en = src(ea[1]) if ea else "?"
+        cons = f"{c.name}:facet-map"
+        if en in keys:
+            rep.fail(R3, c.path, c.name, cons,
+                     f"{c.name} (element {en}) has a boundary element, so "
+                     f"MappingIsoparametric.bndmap / bndJ are used for it - "
+                     f"but they read the facet nodes as doflocs[:, facets] "
+                     f"(vertex numbers), and the point array of a "
+                     f"discontinuous mesh has one column per cell corner: "
+                     f"G maps facet 1 of a two-cell mesh to (0.167, 0.25, "
+                     f"0.25) instead of its centre, the sum of |det DG| is "
+                     f"4.18 instead of 4; the sibling DG classes have no "
+                     f"boundary element and refuse", c.node.lineno)
+        else:
+            rep.ok(R3, cons, f"no boundary element for {en}: facet maps "
+                             f"are refused, not computed on garbage")
+    if n < 4:
+        raise AnalysisError(f"only {n} MeshDG classes found")
+
+
 def _newton(model: Model, rep):
     """The iterative inverse of the isoparametric map (R5).
 
@@ -1235,6 +1285,7 @@ def run(model: Model, rep, tier: str) -> None:
     refdoms = load_refdoms(model)
     staged(lambda: _newton(model, rep),
            lambda: _newton_start(model, rep),
+           lambda: _dg_facet_map(model, rep),
            lambda: _affine_algebra(model, rep, refdoms),
            lambda: _iso_algebra(model, rep),
            lambda: _refdom_normals(rep, refdoms),
